@@ -1,28 +1,47 @@
 #!/usr/bin/env python3
-"""Runs each seeded change in /verif/seeded against the check of its own property (scratch worktree, bin/try_patch.sh)
-and records which rules report it: updates meta.json ("caught_by") and writes seeded/MATRIX.md."""
+"""Runs each seeded change in /verif/seeded against the check of its own property (scratch worktree, bin/try_patch.sh), in
+parallel, and records which rules report it: updates meta.json ("caught_by") and writes seeded/MATRIX.md.
+  seed_matrix.py [prefix ...]     only the seeds whose directory name starts with one of the prefixes (MATRIX.md is then not rewritten)"""
 import json, os, subprocess, sys, re
+from concurrent.futures import ThreadPoolExecutor
 V = os.path.dirname(os.path.dirname(os.path.abspath(__file__)))
-rows = []
-for d in sorted(os.listdir(os.path.join(V, 'seeded'))):
+only = [a for a in sys.argv[1:] if not a.startswith('--')]
+
+
+def run_one(d):
     sd = os.path.join(V, 'seeded', d)
-    if not os.path.isdir(sd) or not os.path.exists(os.path.join(sd, 'patch.diff')):
-        continue
     prop = d.split('-')[0]
     meta = json.load(open(os.path.join(sd, 'meta.json')))
     props = [prop] + meta.get('also_check', [])
     r = subprocess.run([os.path.join(V, 'bin', 'try_patch.sh'), os.path.join(sd, 'patch.diff')] + props, stdout=subprocess.PIPE, stderr=subprocess.STDOUT, universal_newlines=True)
-    out = r.stdout
-    if 'PATCH DOES NOT APPLY' in out or 'patch does not apply' in out:
-        verdict, rules = 'patch no longer applies to HEAD (superseded by a later fix)', []
-    else:
-        rules = sorted(set(re.findall(r'^  rule      (\S+)', out, re.M)))
-        verdict = 'caught (exit 1)' if r.returncode == 1 and rules else ('analysis-broken (exit 2)' if r.returncode == 2 else 'MISSED')
-    meta['caught_by'] = {'checks_run': props, 'verdict': verdict, 'rules': rules}
-    json.dump(meta, open(os.path.join(sd, 'meta.json'), 'w'), indent=1)
-    rows.append((d, meta.get('summary', '')[:110].replace('|', '/').replace('\n', ' '), ('first run: ' + ('reported' if meta.get('reported_when_first_run') else 'missed') + '; now: ') + verdict, ', '.join(rules)))
-    print(d, verdict, rules)
-with open(os.path.join(V, 'seeded', 'MATRIX.md'), 'w') as f:
-    f.write('# Seeded changes vs. checks\n\nEach row: a change to aslze/asl produced by an independent sub-agent (given only the property text), confirmed by\n`bin/confirm_seed.sh` (builds, 28/28 tests pass, demo fails with / passes without), then run with `bin/try_patch.sh`.\n\n| seed | change | verdict | reporting rules |\n|---|---|---|---|\n')
-    for r_ in rows:
-        f.write('| %s | %s | %s | %s |\n' % r_)
+    return d, r.returncode, r.stdout, props
+
+
+dirs = []
+for d in sorted(os.listdir(os.path.join(V, 'seeded'))):
+    sd = os.path.join(V, 'seeded', d)
+    if not os.path.isdir(sd) or not os.path.exists(os.path.join(sd, 'patch.diff')):
+        continue
+    if only and not any(d.startswith(o) for o in only):
+        continue
+    dirs.append(d)
+rows = []
+with ThreadPoolExecutor(max_workers=10) as ex:
+    for d, rc, out, props in ex.map(run_one, dirs):
+        sd = os.path.join(V, 'seeded', d)
+        meta = json.load(open(os.path.join(sd, 'meta.json')))
+        if 'PATCH DOES NOT APPLY' in out or 'patch does not apply' in out:
+            verdict, rules = 'patch no longer applies to HEAD (superseded by a later fix)', []
+        else:
+            rules = sorted(set(re.findall(r'^  rule      (\S+)', out, re.M)))
+            verdict = 'caught (exit 1)' if rc == 1 and rules else ('analysis-broken (exit 2)' if rc == 2 else 'MISSED')
+        meta['caught_by'] = {'checks_run': props, 'verdict': verdict, 'rules': rules}
+        json.dump(meta, open(os.path.join(sd, 'meta.json'), 'w'), indent=1)
+        first = meta.get('reported_when_first_run')
+        rows.append((d, str(meta.get('summary', ''))[:110].replace('|', '/').replace('\n', ' '), ('first run: ' + ('reported' if first else 'missed' if first is not None else 'n/a') + '; now: ') + verdict, ', '.join(rules)))
+        print(d, verdict, rules)
+if not only:
+    with open(os.path.join(V, 'seeded', 'MATRIX.md'), 'w') as f:
+        f.write('# Seeded changes vs. checks\n\nEach row: a change to aslze/asl produced by an independent sub-agent (given only the property text), confirmed by\n`bin/confirm_seed.sh` (builds, 28/28 tests pass, demo fails with / passes without), then run with `bin/try_patch.sh`.\n\n| seed | change | verdict | reporting rules |\n|---|---|---|---|\n')
+        for r_ in rows:
+            f.write('| %s | %s | %s | %s |\n' % r_)
